@@ -10,6 +10,7 @@ import (
 	"io"
 	"net/http/httptest"
 	"os"
+	"strconv"
 	"strings"
 	"time"
 
@@ -140,6 +141,86 @@ func cmdLimits(args []string) error {
 					"sent": hex.EncodeToString(body), "stored": stored})
 			}
 		}
+	}
+	// (3) which bucket a request is charged to, from configuration text through the real runtime and ingress handler: a
+	// route's own rate_limit if it declares one, otherwise the ONE global bucket shared by all such routes
+	for i := 0; i < *n/4; i++ {
+		type lim struct {
+			Key   string `json:"key"`
+			Num   int    `json:"num"`
+			Den   int    `json:"den"`
+			Burst int    `json:"burst"`
+		}
+		rates := [][2]int{{1, 1}, {2, 1}, {4, 1}, {1, 2}, {1, 4}, {8, 1}}
+		rpsText := func(rt [2]int) string {
+			return strconv.FormatFloat(float64(rt[0])/float64(rt[1]), 'f', -1, 64)
+		}
+		var lims []lim
+		var b strings.Builder
+		b.WriteString("pull_api {\n  auth token raw:t\n}\n")
+		hasGlobal := r.chance(75)
+		if hasGlobal {
+			rt := pick(r, rates)
+			bu := pick(r, []int{1, 2, 3, 5})
+			fmt.Fprintf(&b, "ingress {\n  rate_limit {\n    rps %s\n    burst %d\n  }\n}\n", rpsText(rt), bu)
+			lims = append(lims, lim{"global", rt[0], rt[1], bu})
+		}
+		nr := 2 + r.intn(3)
+		keyOf := make([]string, nr)
+		for k := 0; k < nr; k++ {
+			fmt.Fprintf(&b, "/q%d {\n", k)
+			keyOf[k] = "none"
+			if hasGlobal {
+				keyOf[k] = "global"
+			}
+			if r.chance(35) {
+				rt := pick(r, rates)
+				bu := pick(r, []int{1, 2, 4})
+				fmt.Fprintf(&b, "  rate_limit {\n    rps %s\n    burst %d\n  }\n", rpsText(rt), bu)
+				keyOf[k] = fmt.Sprintf("/q%d", k)
+				lims = append(lims, lim{keyOf[k], rt[0], rt[1], bu})
+			}
+			fmt.Fprintf(&b, "  pull { path /pull/q%d }\n}\n", k)
+		}
+		compiled, err := compileText(b.String())
+		if err != nil {
+			emit(map[string]interface{}{"k": "cfgerror", "stage": "ratecfg", "err": err.Error(), "text": b.String()})
+			continue
+		}
+		start := int64(1_700_000_000_000_000_000) / tick * tick
+		rclock := &fakeClock{now: start}
+		rt, err := app.VerifNewRuntime(compiled, rclock.Now)
+		if err != nil {
+			return err
+		}
+		store := queue.NewMemoryStore(queue.WithNowFunc(rclock.Now))
+		srv := rt.IngressServer(store)
+		type ev struct {
+			T       int64  `json:"t"`
+			Limiter string `json:"limiter"`
+			Route   string `json:"route"`
+			Got     bool   `json:"got"`
+			Status  int    `json:"status"`
+		}
+		var evs []ev
+		for k := 0; k < 30+r.intn(90); k++ {
+			switch r.weighted([]int{40, 35, 20, 5}) {
+			case 1:
+				rclock.now += tick * int64(1+r.intn(64))
+			case 2:
+				rclock.now += tick * int64(64+r.intn(1500))
+			case 3:
+				rclock.now += tick * 512 * int64(1+r.intn(8))
+			}
+			q := r.intn(nr)
+			rec := httptest.NewRecorder()
+			srv.ServeHTTP(rec, httptest.NewRequest("POST", fmt.Sprintf("http://ex/q%d", q), bytes.NewReader([]byte("{}"))))
+			evs = append(evs, ev{rclock.now, keyOf[q], fmt.Sprintf("/q%d", q), rec.Code == 202, rec.Code})
+		}
+		if lims == nil {
+			lims = []lim{}
+		}
+		emit(map[string]interface{}{"k": "ratecfg", "text": b.String(), "start": start, "limiters": lims, "events": evs})
 	}
 	return nil
 }
